@@ -92,6 +92,10 @@ def classify (line : Str) : Kind :=
       let (w2, r2) := firstWord (lstrip r1)
       classifyCore w2 r2 l
     else classifyCore w1 r1 l
+  else if w == "abstract".toList then
+    -- `abstract interface`: a container like `interface` (its FortranInterface object is taken out of the
+    -- registration list again, see AttachIface.lean)
+    if (firstWord (lstrip r)).1 == "interface".toList then .openE [] else .other
   else classifyCore w r l
 
 structure Ent where
